@@ -374,6 +374,7 @@ func (r *rwRT) ruleOptEta() {
 		{name: "callee is a struct field of function type s.F", params: ok2("a"), args: []string{"a"}, fun: "field", same: true},
 		{name: "callee is a generic function with inferred type arguments", params: ok2("a"), args: []string{"a"}, fun: "generic", same: true},
 		{name: "callee is an explicitly instantiated generic function id[int]", params: ok2("a"), args: []string{"a"}, fun: "generic-inst", same: true, may: true},
+		{name: "callee is a generic function with inferred type arguments left: conv[int] of two type parameters", params: ok2("a"), args: []string{"a"}, fun: "generic-partial", same: true},
 		{name: "callee is a call f()(a)", params: ok2("a"), args: []string{"a"}, fun: "call", same: true},
 		{name: "callee is a function literal", params: ok2("a"), args: []string{"a"}, fun: "funclit", same: true},
 		{name: "callee is a parenthesised function (f)", params: ok2("a"), args: []string{"a"}, fun: "paren", same: true, may: true},
@@ -477,6 +478,8 @@ func (r *rwRT) ruleOptEta() {
 			fun = ident("id", mkObj("Func", "id", false, 1))
 		case sc.fun == "generic-inst":
 			_, fun = r.heapNode(st, "IndexExpr", map[string]AV{"X": ident("id", mkObj("Func", "id", false, 1)), "Index": exprLeaf(r, "int")})
+		case sc.fun == "generic-partial":
+			_, fun = r.heapNode(st, "IndexExpr", map[string]AV{"X": ident("conv", mkObj("Func", "conv", false, 2)), "Index": exprLeaf(r, "int")})
 		case sc.fun == "call":
 			_, fun = r.heapNode(st, "CallExpr", map[string]AV{"Fun": ident("f", mkObj("Func", "f", false, 0))})
 		case sc.fun == "funclit":
